@@ -303,15 +303,21 @@ func runSourcesVia(r srcRow, viaCLI bool) (out []byte, errText string, urls []st
 		// no getter configured: nothing can take long; a call that does not return (a default getter
 		// retrying against the sentinel) is abandoned
 		go f()
-		wait := 3 * time.Second
-		if realNetHits.Load() > 0 {
-			wait = 200 * time.Millisecond
-		}
-		select {
-		case r := <-ch:
-			out, xerr = r.o, r.e
-		case <-time.After(wait):
-			out, xerr = nil, fmt.Errorf("TIMEOUT: no result within %v", wait)
+		// (generous while nothing has reached the sentinel: a loaded machine must not turn a slow call
+		// into a verdict; short once the sentinel has been contacted, i.e. once the violation is certain)
+		start := time.Now()
+		for {
+			select {
+			case r := <-ch:
+				out, xerr = r.o, r.e
+				return
+			case <-time.After(100 * time.Millisecond):
+			}
+			el := time.Since(start)
+			if el > 30*time.Second || (realNetHits.Load() > 0 && el > 300*time.Millisecond) {
+				out, xerr = nil, fmt.Errorf("TIMEOUT: no result within %v", el.Round(100*time.Millisecond))
+				return
+			}
 		}
 	}
 	call(func() {
